@@ -207,16 +207,20 @@ void c15_gen(hv::rng &r, const std::string &tier)
         const std::vector<cfg> small = {{2, 1}, {3, 1}, {3, 2}, {4, 2}};
         const std::vector<cfg> mid = {{2, 1}, {3, 1}, {3, 2}, {4, 1}, {4, 2}, {5, 3}, {4, 4}, {6, 2}};
         unsigned k = (unsigned)(gen_seed % 8);
-        auto tree = [&](int var, cfg c, int alpha, unsigned L)
+        // (round 3b, quick-tier time: the tree ops are 80 % of the harness' run time.  In the quick tier the deepest
+        //  byte tree - length 5 - is walked below the third of the first bytes selected by the seed, length 4 below
+        //  the others: seeds 1, 2, 3 together cover it; the thorough tier is unchanged)
+        auto tree = [&](int var, cfg c, int alpha, unsigned L, bool third = false)
         {
             const auto &A = alpha ? ALPHA_KEYS : ALPHA_BYTES;
             for (size_t a = 0; a < A.size(); a++)
                 for (size_t b = 0; b < A.size(); b++)
-                    emit(std::string("vtx ") + VAR[var] + " " + std::to_string(c.cap) + " " + std::to_string(c.depth) + " " + std::to_string(alpha) + " " + std::to_string(L) + " " + hx(A[a] + A[b]));
+                    emit(std::string("vtx ") + VAR[var] + " " + std::to_string(c.cap) + " " + std::to_string(c.depth) + " " + std::to_string(alpha) + " " +
+                         std::to_string(third && a % 3 != gen_seed % 3 ? L - 1 : L) + " " + hx(A[a] + A[b]));
         };
         // 15-byte alphabet: every sequence up to length 4 in all 8 configurations, up to 5 (thorough 6) in one
         for (unsigned i = 0; i < 8; i++)
-            tree(i & 1, small[i / 2], 0, i == k ? (th ? 4 : 3) : 2);
+            tree(i & 1, small[i / 2], 0, i == k ? (th ? 4 : 3) : 2, i == k && !th);
         // 11 whole keys: every sequence up to length 4 in all 16 configurations, up to 5 (thorough 6) in two
         for (unsigned i = 0; i < 16; i++)
             tree(i & 1, mid[i / 2], 1, (i % 8) == k ? (th ? 4 : 3) : 2);
